@@ -32,7 +32,8 @@ META = {
                   "(bijection, fallback, range semantics) are claimed there. SharedAgree is one-sided: a type the "
                   "reference has in a version must have that id in gate; a type gate registers for a version where "
                   "the reference does not is not judged. The play registries have the fallback switched off (as in "
-                  "the reference): for them 'no table' is accepted for unknown protocols.",
+                  "the reference): for them 'no table' is accepted for unknown protocols. Concurrent lookups (8 goroutines, "
+                  "different protocols, 150 ms per state/direction) are a stress run, not an enumeration of interleavings.",
     "technique": "TLA+ reference data + operators, TLC model checking of the range semantics, TLC trace validation of "
                  "the complete registry dump",
 }
@@ -98,6 +99,8 @@ def run(ctx):
         "unknown_protocol_probes": st["unknown_probes"],
         "gomc_cells": st["gomc_cells"],
         "cells_in_reference_range": ref_cells,
+        "concurrent_lookups": st["concurrent_lookups"],
+        "concurrent_distinct_tables_judged": st["concurrent_tables"],
         "toy_cases_replayed": tst["cases"],
         "toy_cases_refused_by_register": tst["panics"],
         "distinct_nontrivial": sum(1 for x in dump if x["ev"] == "table" and len(x["byType"]) >= 2)
@@ -118,7 +121,12 @@ def run(ctx):
 
 def report(ctx, bad):
     ev = bad["ev"]
-    if ev == "cell":
+    if ev in ("ctable", "ccell"):
+        ctx.finding("concurrent-lookup:%s/%s" % (bad["state"], bad["dir"]),
+                    "ProtocolRegistry(%d) of %s %s, looked up while other protocols were looked up concurrently / "
+                    "alternately, handed out a table that is not protocol %d's (it reports %s)"
+                    % (bad["proto"], bad["state"], bad["dir"], bad["proto"], bad.get("reports", "a wrong id")), bad)
+    elif ev == "cell":
         key = "id:%s/%s/%s@%d" % (bad["state"], bad["dir"], bad["t"], bad["proto"])
         ctx.finding(key, "gate maps %s (%s %s, protocol %d) to id %s; the reference table has a different id"
                     % (bad["t"], bad["state"], bad["dir"], bad["proto"],
